@@ -15,6 +15,13 @@ structure Answer where
   nAlt : Nat := 0
   /-- option `sol:stub` given (then each intermediate solution is written to `<solstub>N.sol`) -/
   solStub : Bool := false
+  /-- feasrelax: the solver also returned the original objective value -/
+  origObj : Bool := false
+  /-- options `alg:kappa` ≠ 0, `alg:rays` bit 1 / bit 2, `alg:iisfind` ≠ 0 -/
+  kappaOpt : Bool := false
+  rayPrimalOpt : Bool := false
+  rayDualOpt : Bool := false
+  iisOpt : Bool := false
 deriving Repr
 
 end MpVerif.C10
